@@ -58,11 +58,26 @@ func (p *_RemoveUnusedPass) DoPass() *ast.Module {
 		p.funcs[i].color = white
 	}
 
-Loop:
+	// 导入函数同样可能是 start/elem/export 引用的根
+	var names []string
+	for _, importSpec := range p.m.Imports {
+		if importSpec.ObjKind == token.FUNC {
+			names = append(names, importSpec.FuncName)
+		}
+	}
 	for _, fn := range p.m.Funcs {
+		names = append(names, fn.Name)
+	}
+
+Loop:
+	for _, name := range names {
+		if name == "" {
+			continue
+		}
+
 		// start
-		if fn.Name != "" && fn.Name == p.m.Start {
-			p.markFuncReachable(p.funcs[fn.Name])
+		if name == p.m.Start {
+			p.markFuncReachable(p.funcs[name])
 			continue
 		}
 
@@ -70,8 +85,8 @@ Loop:
 
 		for _, elem := range p.m.Elem {
 			for _, elemValue := range elem.Values {
-				if fn.Name != "" && fn.Name == elemValue {
-					p.markFuncReachable(p.funcs[fn.Name])
+				if name == elemValue {
+					p.markFuncReachable(p.funcs[name])
 					continue Loop
 				}
 			}
@@ -80,8 +95,8 @@ Loop:
 		// export
 		for _, exp := range p.m.Exports {
 			if exp.Kind == token.FUNC {
-				if exp.Name != "" && fn.Name == exp.FuncIdx {
-					p.markFuncReachable(p.funcs[fn.Name])
+				if name == exp.FuncIdx {
+					p.markFuncReachable(p.funcs[name])
 					continue Loop
 				}
 			}
